@@ -93,6 +93,70 @@ def check_stage(run, stage, n_items, n_workers):
         run.ob(nm, "inconclusive", "E3:bmc", "no run in which the failure becomes visible exists in the model (%s)" % r)
 
 
+def job_backpressure(run, stage_name, n_workers):
+    stage = [s for s in STAGES if s.name == stage_name][0]
+    check_backpressure(run, stage, n_workers)
+
+
+def check_backpressure(run, stage, n_workers):
+    """A put() with a time-out on the bounded queue can raise queue.Full while a failed worker is dead and the others
+    are busy.  How the entry point reacts is EXTRACTED (does it raise, does it drop workers from the list whose exit
+    codes it reads later); the stage model gets a put-timeout transition accordingly and is checked with more items
+    than the queue holds."""
+    name = "%s[W=%d].back-pressure" % (stage.name, n_workers)
+    small = stage.item_counts["quick"][0]
+    full = mpmodel.extract_full_reaction(lambda: stage.run_entry(small, n_workers, lambda k: None), n_workers)
+    if full is None:
+        run.ob(name, "confirmed", "E3:extraction", "the producer's put() has no time-out: a full queue blocks it, there is no queue.Full path (covered by the no-hang obligation)")
+        return
+    script0, _rec = C03.producer_script(stage, small, n_workers)
+    maxsize = mpmodel.script_maxsize(script0)
+    n_items = maxsize + 3
+    try:
+        script, rec = C03.producer_script(stage, n_items, n_workers)
+    except Exception as e:
+        run.ob(name, "inconclusive", "E3:extraction", "put() uses a time-out (reaction to queue.Full: %s) but the stage cannot be run with %d items (queue of %d): not decided (%s)" % (full, n_items, maxsize, e))
+        return
+    table = C03.worker_table(stage)
+    detects, _r = stage_detects(stage, small, n_workers)
+    ts = mpmodel.stage_ts(script, table, n_workers, fault=True, detects=detects, full=full)
+    ts.param_constraints.append(z3.ULT(ts.fault_item, 2))
+    U = bmc.Unrolled(ts, ts.max_steps, timeout_ms=1500000)
+    puts = [op for op in script if op[0] == "put"]
+    run.extra.setdefault("models", {})[name] = dict(reaction_to_queue_full=full, items=n_items, queue_maxsize=maxsize, steps=ts.max_steps)
+    queries = [
+        ("failure-is-visible", U.exists(lambda s: z3.And(s["pc"] == ts.end_pc, s["raised"] == 0)), "a callback raised in a worker but the entry point returns normally"),
+        ("no-hang", (lambda s: z3.And(z3.Not(U.enabled(s, progress_only=True)), s["pc"] != ts.end_pc))(U.final()), "a callback raised in a worker and the entry point waits forever"),
+    ]
+    for qn, bad, what in queries:
+        U.solver.set("timeout", 1500000 if qn == "failure-is-visible" else 300000)
+        r, m, dt = U.check(bad)
+        nm = "%s.%s" % (name, qn)
+        if r == "unsat":
+            run.ob(nm, "unsat", "E3:bmc", "%d items on a queue of %d, all schedules incl. put() time-outs, failing item among the first two; reaction to queue.Full: %s" % (n_items, maxsize, full), queries=1, solver_s=dt)
+        elif r == "sat":
+            fi = m.eval(ts.fault_item, model_completion=True).as_long()
+            fkey = stage.item_key(puts[fi][2])
+            trace = U.trace(m)
+            obs = C03.replay_trace(stage, n_items, n_workers, trace, fault_key=fkey)
+            swallowed = bool(obs.get("returned"))
+            hang = not (obs.get("returned") or obs.get("raised"))
+            if swallowed or hang:
+                text = ("# schedule + failing item found by the solver (with a put() time-out on the full queue), replayed on the real %s\n"
+                        "import sys\nsys.path.insert(0, %r)\nimport props.C03 as P\nfrom props.stages import STAGES\n"
+                        "st = [s for s in STAGES if s.name == %r][0]\nscript, rec = P.producer_script(st, %d, %d)\nputs = [op for op in script if op[0] == 'put']\n"
+                        "obs = P.replay_trace(st, %d, %d, %r, fault_key=st.item_key(puts[%d][2]))\nprint({k: obs.get(k) for k in ('returned', 'raised', 'calls', 'procs')})\n"
+                        "sys.exit(1 if (obs.get('returned') or not obs.get('raised')) else 0)\n"
+                        ) % (stage.name, str(__import__("vlib.core").core.VERIF), stage.name, n_items, n_workers, n_items, n_workers, trace, fi)
+                run.violation(nm, "%s:worker-failure-swallowed-after-put-timeout" % stage.name,
+                              "%s(parallel) with %d items on a queue of %d: %s after a put() time-out dropped the dead worker from the list whose exit codes are read; real run with the callback of item %r raising: returned=%s raised=%s hang=%s" % (
+                                  stage.name, n_items, maxsize, what, fkey, obs.get("returned"), obs.get("raised"), hang), text, "E3:bmc+detsched", queries=1, solver_s=dt)
+            else:
+                run.error(nm, "solver schedule did not reproduce on the real code: %s" % ({k: obs.get(k) for k in ("returned", "raised", "drive")},))
+        else:
+            run.ob(nm, "inconclusive", "E3:bmc", "solver answered %s after %.0fs" % (r, dt), queries=1, solver_s=dt)
+
+
 def walk_detection(cfg, n_workers):
     """Does the real dispatcher raise when a receive times out while a worker is not alive? Does it raise on exit codes?"""
     def responder():
@@ -126,7 +190,7 @@ def check_walk(run, cfg, n_workers, cap):
     shutdown, done_max, nstart, seeds, loop_polls, apex_breaks = C01.shutdown_script(cfg, n_workers)
     loop_detects = walk_detection(cfg, n_workers)
     ts = mpmodel.walk_ts(cfg.tree, n_workers, R, table["post_item"], done_max, shutdown, fault=True, max_live_seeds=cap, apex_breaks=apex_breaks,
-                         loop_detects_dead=loop_detects, flag_read=table.get("flag_read", "after_empty"))
+                         loop_detects_dead=loop_detects, flag_read=table.get("flag_read", "after_empty"), early_set=C01.EARLY_SET.get(cfg.name, []))
     U = bmc.Unrolled(ts, ts.max_steps, timeout_ms=500000)
     run.extra.setdefault("models", {})[name] = dict(dispatcher_raises_on_dead_worker=loop_detects, shutdown=[str(o) for o in shutdown], steps=ts.max_steps)
     fin = U.final()
@@ -221,8 +285,8 @@ def check(run):
     if run.tier == "thorough":
         plans += [(C01.S2, 2, None), (C01.S1, 2, None), (C01.S2, 3, None)]
     wjobs = [(cfg.name, w, cap) for cfg, w, cap in plans if not only or any(o == "walk" or cfg.name.startswith(o) for o in only)]
-    run_parallel(run, __name__, "job_any", [("walk",) + j for j in wjobs] + [("stage",) + j for j in jobs], timeout_s=3000 if run.tier == "quick" else 20000)
+    run_parallel(run, __name__, "job_any", [("walk",) + j for j in wjobs] + [("stage",) + j for j in jobs] + [("backpressure", st.name, 2) for st in STAGES if not only or any(o in st.name or o == "back-pressure" for o in only)], timeout_s=3000 if run.tier == "quick" else 20000)
 
 
 def job_any(run, kind, *args):
-    (job_walk if kind == "walk" else job_stage)(run, *args)
+    {"walk": job_walk, "stage": job_stage, "backpressure": job_backpressure}[kind](run, *args)
